@@ -39,7 +39,7 @@ def classify(res):
         return "duplicate tensors", "argument"
     if last == "_check_expects_grad":
         return "parameter that does not expect grad", "argument"
-    if last == "_get_leaf_tensors" or "grad_fn" in " ".join(res.trace.decisions[-1:]):
+    if "grad_fn" in " ".join(res.trace.decisions[-1:]):
         return "tensor without grad_fn (leaf discovery)", "argument"
     if last in ("__init__",) and "_transform" in fn:
         return "transform construction check (key typing)", "argument"
